@@ -129,8 +129,14 @@ def skip_ties(r):
     the model line is not compared for such a case, the checker line (S) still is"""
     M, I = r.model.get("M", {}), r.impl.get("I", {})
     k = 0
+    nomodel = 0
     for cid, m in list(M.items()):
         if m == "TIE" and cid in I:
             M[cid] = I[cid]
             k += 1
+        elif m == "NOMODEL" and cid in I:
+            # Yen's k-shortest paths: Model/Search.v has no Yen driver, these cases are judged by the S line only
+            M[cid] = I[cid]
+            nomodel += 1
+    r.stats.setdefault("hist", {})["no_model_line(S_only)"] = nomodel
     return k
